@@ -517,7 +517,9 @@ static int vsprcatf_core(
                               FormatContext.Arg[1] ? FormatContext.Arg[1] : 10,
                               NumPadZeros, FormatContext.ForceLeadZero,
                               FormatContext.ForceUpper ? 'A' : HexStartCharacter,
-                              SplitByteCharacter);
+                              /* byte splitting is a listing feature: only where the
+                                 caller asks for the listing's radix */
+                              FormatContext.ArgState[1] ? SplitByteCharacter : '\0');
                 if (Cnt > (int)sizeof(Str)) {
                     Cnt = sizeof(Str);
                 }
